@@ -33,11 +33,14 @@ RULE = (
     "arithmetic slice (stride 23, ~2850 graphs, canonical order + 2 seed-derived permutations) and the thorough "
     "tier all of them x all 24 orders, split by shard; n=5..9 are drawn by Hypothesis (Erdos-Renyi with edge "
     "percentage 5-50, or planted blocks = rings chained by forward edges, relabelled), with optional second "
-    "outputs, multi-variable edges, a shared external input and duplicated discipline names. A graph is "
+    "outputs, multi-variable edges, a shared external input, duplicated discipline names and inputs that are optional "
+    "(non-required, with a default) in the consumer's grammar - the graph does not depend on that; the n<=3 enumeration is "
+    "repeated with all / mixed optional inputs and, for n=3, with a second output of node 0 consumed by node 2 only. A graph is "
     "realised as disciplines (node i outputs v_i; edge i->j makes v_i an input of j; a self-loop makes v_i an "
     "input of i; input-less nodes get a private input). Oracle: own boolean Floyd-Warshall closure. "
     "Composition part: Hypothesis draws n=2..6 graphs, sizes, integer coefficients, q in {0.1,0.2,0.3}, inner "
-    "MDA, parallel stages, listing order; reference = numpy.linalg.solve of (I-B) y = A ext + c. "
+    "MDA, parallel stages, listing order, optional inputs and whether cycle groups / self-coupled nodes are handed to MDAChain "
+    "wrapped in one MDOChain node; reference = numpy.linalg.solve of (I-B) y = A ext + c. "
     "Non-trivial = (graph, listing order) with an SCC of size >=2 and >=2 stages (composition: additionally "
     "executed through MDAChain); distinct = structural hash of (n, edges, options, order)."
 )
@@ -45,8 +48,9 @@ ASSUMPTIONS = [
     "each variable is produced by exactly one discipline (check_disciplines_consistency's notion of a consistent set)",
     "the order of the members inside a group is checked against the DependencyGraph class docstring "
     "('same order as in the passed disciplines'); the order of groups inside a stage is not constrained",
-    "strong_couplings / weak_couplings / all_couplings are only required to lie between the narrowest and the widest "
-    "reading of their docstrings (they coincide for most graphs; the fraction is in the class histogram)",
+    "strong_couplings must equal the variables consumed inside their producer's own group (a variable in a cycle, or read by "
+    "its own producer); weak_couplings / all_couplings are only required to lie between the narrowest and the widest reading "
+    "of their docstrings (unconsumed outputs of weak disciplines, variables read only by their own producer)",
     "composition: coupling matrix scaled to infinity norm q<=0.3, inner MDA tolerance 1e-12 without residual scaling, "
     "max_mda_iter=200; fixed-point outputs are compared with the direct solve within 1e-9*(1+|y|) "
     "(error <= q/(1-q) * residual), acyclic chains within 1e-12*(1+|y|)",
@@ -338,7 +342,7 @@ def systems(draw):
         # inputs that are optional (non-required, with a default value) in the consumer's grammar
         "opt": draw(st.one_of(st.just([]), st.lists(st.integers(0, 1), min_size=1, max_size=7))),
         # cycle groups / self-coupled nodes (index modulo their number) handed to MDAChain as ONE MDOChain node
-        "wrap": draw(st.one_of(st.just([]), st.just([]), st.lists(st.integers(0, 3), min_size=1, max_size=2, unique=True))),
+        "wrap": draw(st.one_of(st.just([]), st.lists(st.integers(0, 3), min_size=1, max_size=2, unique=True))),
     }
 
 
